@@ -423,10 +423,71 @@ func (pe *pathEngine) loop(st *pstate, init ast.Stmt, cond ast.Expr, post ast.St
 		if cond != nil {
 			in.facts = append(in.facts, pe.cond(in, cond))
 		}
+		// cursors: node variables the loop re-assigns and dereferences without ever testing them
+		// against nil. Such a loop relies on "the cursor is not nil" at the head of every
+		// iteration: it must hold on entry and be re-established by every iteration that goes on.
+		var cursors []types.Object
+		for o := range assigned {
+			if _, had := st0.val[o]; had && isNodePtr(o.Type()) && derefsUntested(pe.info, o, cond, body) {
+				cursors = append(cursors, o)
+			}
+		}
+		sort.Slice(cursors, func(i, j int) bool { return cursors[i].Pos() < cursors[j].Pos() })
+		mayBeNil := func(s *pstate, v string) bool {
+			if v == "nil" {
+				return true
+			}
+			if strings.HasPrefix(v, "new") {
+				return false
+			}
+			atom := eqKey(v, "nil")
+			bad := false
+			if !pe.worlds(s, []string{atom}, func(w map[string]bool, _ []string) {
+				if w[atom] {
+					bad = true
+				}
+			}) {
+				return true
+			}
+			return bad
+		}
+		for _, o := range cursors {
+			if mayBeNil(st0, st0.val[o]) {
+				pe.violate(pe.site(), "nil cursor: "+o.Name(), body.Pos(), fmt.Sprintf("the loop follows links from %s without testing it, and %s may be nil when the loop is entered", o.Name(), o.Name()))
+			}
+		}
+		entryVal := map[types.Object]string{}
 		if pe.feasible(in) {
+			for _, o := range cursors {
+				k := eqKey(in.val[o], "nil")
+				in.atoms[k] = true
+				in.facts = append(in.facts, func(w map[string]bool) bool { return !w[k] })
+			}
+			for o := range assigned {
+				if v, ok := in.val[o]; ok {
+					entryVal[o] = v
+				}
+			}
+			entryChanges := in.changes
 			inner := conts{ret: k.ret,
 				brk: func(s *pstate) { after(s) },
 				cont: func(s *pstate) {
+					for _, o := range cursors {
+						if mayBeNil(s, s.val[o]) {
+							pe.violate(pe.site(), "nil cursor: "+o.Name(), body.Pos(), fmt.Sprintf("an iteration leaves %s = %s, which may be nil, and the next iteration follows its links without a test", o.Name(), s.val[o]))
+						}
+					}
+					if post == nil && len(entryVal) > 0 && s.changes == entryChanges {
+						same := true
+						for o, v := range entryVal {
+							if s.val[o] != v {
+								same = false
+							}
+						}
+						if same {
+							pe.violate(pe.site(), "no progress", body.Pos(), "an iteration ends with every variable of the loop and the tree as they were when it began: the loop never ends")
+						}
+					}
 					if s.stale != token.NoPos && s.stale != st0.stale {
 						pe.violate(pe.site(), "loop after store", s.stale, "the tree is changed inside a loop that goes on afterwards: the conditions tested in later iterations are not decided (fails closed)")
 					}
@@ -451,6 +512,42 @@ func (pe *pathEngine) loop(st *pstate, init ast.Stmt, cond ast.Expr, post ast.St
 	} else {
 		run(st)
 	}
+}
+
+// derefsUntested: the loop selects a field of o somewhere and never compares o with nil.
+func derefsUntested(info *types.Info, o types.Object, cond ast.Expr, body *ast.BlockStmt) bool {
+	deref, tested := false, false
+	visit := func(n ast.Node) {
+		if n == nil {
+			return
+		}
+		ast.Inspect(n, func(m ast.Node) bool {
+			switch x := m.(type) {
+			case *ast.FuncLit:
+				return false
+			case *ast.SelectorExpr:
+				if id, ok := x.X.(*ast.Ident); ok && info.ObjectOf(id) == o {
+					deref = true
+				}
+			case *ast.BinaryExpr:
+				if x.Op == token.EQL || x.Op == token.NEQ {
+					for _, pair := range [][2]ast.Expr{{x.X, x.Y}, {x.Y, x.X}} {
+						a, aok := ast.Unparen(pair[0]).(*ast.Ident)
+						b, bok := ast.Unparen(pair[1]).(*ast.Ident)
+						if aok && bok && info.ObjectOf(a) == o && b.Name == "nil" {
+							tested = true
+						}
+					}
+				}
+			}
+			return true
+		})
+	}
+	if cond != nil {
+		visit(cond)
+	}
+	visit(body)
+	return deref && !tested
 }
 
 func isTreeVar(o types.Object) bool {
@@ -977,6 +1074,7 @@ func (pe *pathEngine) endOfPath(st *pstate) {
 // bstLinks: the link discipline decided by path interpretation.
 func (c *Ctx) bstLinks() {
 	run := c.Run
+	run.Explanation += " A loop of the tree code that follows links from a cursor it never tests has a non-nil cursor on entry and after every iteration, and no iteration leaves every variable and the tree unchanged."
 	hp := c.P.Pkg("helper")
 	info := hp.TypesInfo
 	pe := &pathEngine{c: c, info: info, decls: map[*types.Func]*ast.FuncDecl{}, writers: map[*types.Func]bool{}, recursive: map[*types.Func]bool{},
